@@ -33,10 +33,63 @@ def _vec(f):
     return _np.vectorize(f, otypes=[object])
 
 
+class SymArray(_np.ndarray):
+    """Object array whose comparisons fork element-wise and return a real boolean array
+    (what NumPy returns for float arrays), so that `a[a > 1.0] = 1.0` works on symbols."""
+
+    def _cmp(self, other, op):
+        a = _np.asarray(self)
+        b = _np.asarray(other) if isinstance(other, _np.ndarray) else other
+        if isinstance(b, _np.ndarray):
+            a, b = _np.broadcast_arrays(a, b)
+            out = _np.empty(a.shape, dtype=bool)
+            for idx in _np.ndindex(a.shape):
+                out[idx] = bool(op(a[idx], b[idx]))
+            return out
+        out = _np.empty(a.shape, dtype=bool)
+        for idx in _np.ndindex(a.shape):
+            out[idx] = bool(op(a[idx], b))
+        return out
+
+    def __gt__(self, o):
+        return self._cmp(o, lambda x, y: x > y)
+
+    def __ge__(self, o):
+        return self._cmp(o, lambda x, y: x >= y)
+
+    def __lt__(self, o):
+        return self._cmp(o, lambda x, y: x < y)
+
+    def __le__(self, o):
+        return self._cmp(o, lambda x, y: x <= y)
+
+    def __eq__(self, o):
+        return self._cmp(o, lambda x, y: x == y)
+
+    def __ne__(self, o):
+        return self._cmp(o, lambda x, y: x != y)
+
+    __hash__ = None
+
+    def __array_wrap__(self, out_arr, context=None, return_scalar=False):
+        # reductions of a subclass give 0-d arrays; hand back the element itself
+        if isinstance(out_arr, _np.ndarray) and out_arr.ndim == 0:
+            return out_arr.item() if out_arr.dtype == object else out_arr[()]
+        if isinstance(out_arr, _np.ndarray) and out_arr.dtype == object:
+            return out_arr.view(SymArray)
+        return _np.asarray(out_arr)
+
+
+def _sa(a):
+    if isinstance(a, _np.ndarray) and a.dtype == object and not isinstance(a, SymArray):
+        return a.view(SymArray)
+    return a
+
+
 def _objarr(shape, fill):
     a = _np.empty(shape, dtype=object)
     a.fill(fill)
-    return a
+    return a.view(SymArray)
 
 
 _MATHNAME = {'arccos': 'acos', 'arcsin': 'asin', 'arctan': 'atan'}
@@ -91,10 +144,10 @@ class SymNP(types.ModuleType):
     def array(self, obj, dtype=None, **kw):
         if dtype is None or dtype is float or dtype == 'float':
             if _has_sym(obj):
-                return _np.array(obj, dtype=object, **kw)
+                return _sa(_np.array(obj, dtype=object, **kw))
             a = _np.array(obj, **kw)
             if a.dtype.kind == 'f':
-                return a.astype(object)
+                return _sa(a.astype(object))
             return a
         return _np.array(obj, dtype=dtype, **kw)
 
